@@ -79,8 +79,34 @@ impl Dependencies {
 
 impl ToTokens for Dependencies {
     fn to_tokens(&self, tokens: &mut TokenStream) {
+        // Verification hook (H2): emit the same statements, but in an order the harness chooses at
+        // run time (identity by default), so that the effect of this set's iteration order can be
+        // explored exhaustively. Absent from every normal build.
+        #[cfg(ts_rs_verif)]
+        {
+            let crate_rename = &*self.crate_rename;
+            let mut lines = self
+                .dependencies
+                .iter()
+                .map(|d| quote!(#d))
+                .collect::<Vec<_>>();
+            lines.sort_by_key(|l| l.to_string());
+            let n = lines.len();
+            let idx = 0..n;
+            tokens.extend(quote![
+                for __ts_rs_verif_i in #crate_rename::__verif::visit_order(#n) {
+                    match __ts_rs_verif_i {
+                        #(#idx => { #lines; })*
+                        _ => {}
+                    }
+                }
+            ]);
+            return;
+        }
+        #[cfg(not(ts_rs_verif))]
         let lines = self.dependencies.iter();
 
+        #[cfg(not(ts_rs_verif))]
         tokens.extend(quote![
             #(#lines;)*
         ]);
